@@ -50,6 +50,31 @@ CHECKS = {
              "print int-range integers as plain decimal. Exploration.",
         note="Trusted: Python json as reference decoder. Locale other than C cannot be exercised in this sandbox.",
         ref="3 C05"),
+    "C06": dict(
+        technique="model-based stateful testing (Hypothesis operation programs) against a Python list/map model, full structural dump after every step",
+        text="Generated call histories (<= 60 late-bound ops over all construction/edit/query calls incl. NULL arguments, out-of-range indices, "
+             "case-variant and aliasing keys, self-insertion, references, constant keys, bulk constructors) are executed by the library and by "
+             "an ordered-list model side by side; after every step every live tree's canonical dump (order, keys, values, flags, next/prev/tail "
+             "links) and every return value must match. Exploration over histories.",
+        note="Trusted: the Python model (written from the property and the header), the dumper. Not generated: insert beyond the end, key-less members, editing through references.",
+        ref="3 C06"),
+    "C07": dict(
+        technique="model-based stateful testing (Hypothesis programs) with a tracking allocator (ledger), ASan, read-only guarded borrowed memory, both allocator configurations",
+        text="C06 programs extended with parse/print/compare/minify/duplicate, references, constant keys in read-only pages, inter-container moves "
+             "and aliasing key arguments, run under custom hooks and under the default allocator (seen through --wrap); final deletion must "
+             "empty the ledger with no foreign/double/cross free and no sanitizer report, and every live tree must equal the model after every "
+             "step (so releasing a reference never changes its target). Exploration over histories.",
+        note="Trusted: ledger allocator, ASan, page protection. LeakSanitizer is off inside the Python host.",
+        ref="3 C07"),
+    "C08": dict(
+        level="fault_enumeration",
+        technique="fault injection enumerated exhaustively over the failing allocation index for Hypothesis-generated API scenarios, both allocator configurations",
+        text="For every generated scenario (pre-state trees + one core API call) every allocation request k = 1..N of the call is made to fail "
+             "in turn (custom hooks and default allocator); the call must return the fault-free result or its documented NULL/false, leave no "
+             "allocation of its own, leave every pre-existing tree printing the same text and structurally sound, and the library usable. "
+             "Exhaustive in k per scenario, exploration over scenarios.",
+        note="Trusted: ledger/--wrap fault injector (fault window = the call under test only), ASan.",
+        ref="3 C08"),
     "C09": dict(
         technique="property-based testing (Hypothesis trees) with an exhaustive sweep over every buffer length, guard pages + ASan redzones + canaries",
         text="For each generated tree and format, every n in [0, L+16] is tried in an exact-size heap block and flush against a PROT_NONE "
@@ -66,6 +91,30 @@ CHECKS = {
              "derived from an independently computed end of value. Exploration.",
         note="Tails with bytes after an in-buffer terminator get no accept/reject verdict (statement silent). Trusted: dialect.c for the value end.",
         ref="3 C10"),
+    "C11": dict(
+        technique="model-based stateful testing (Hypothesis programs + Duplicate + further edits), pointer-disjointness checks, deep-spine and cyclic shapes built natively",
+        text="Duplicate of generated trees (references, constant keys, stale keys) is checked for equality (Compare, text), absence of sibling "
+             "links and reference bits, pointer-disjointness from every live tree, shared constant keys; a second generated edit/delete program "
+             "then runs with source and copy compared to the model after every step. Spines of LIMIT-1..LIMIT+3 containers (with and without "
+             "siblings) and three cyclic shapes must be accepted/refused as stated without leaks or source modification. Exploration.",
+        note="N = CJSON_CIRCULAR_LIMIT+1 containers gets no verdict (statement ambiguous by one). Trusted: model, ledger, ASan.",
+        ref="3 C11"),
+    "C12": dict(
+        technique="property-based metamorphic/differential testing (Hypothesis pairs: 21 mutation relations) against a reference equality on Python models",
+        text="For generated pairs (tree, mutation of it | independent tree) Compare(a,b,cs), Compare(b,a,cs) and the reference equality must agree "
+             "for both case modes (case-insensitive only when keys stay distinct after folding); reflexivity, NULL/invalid arguments, "
+             "ownership-flag variants (constant keys, string references, parsed vs built) and non-modification are checked. Exploration.",
+        note="Trusted: model.eq_set (written from the statement). Number perturbations between 1 and 4 ulp are not generated.",
+        ref="3 C12"),
+    "C13": dict(
+        fuzz=True,
+        technique="property-based testing (Hypothesis token streams with generated comments/blanks, exact expected output) + libFuzzer fz_minify with guard pages",
+        engine="hypothesis/ctypes shim + libFuzzer fz_minify",
+        text="Valid documents are emitted as token sequences with generated blanks and //, /* */ comments between tokens; the minified buffer must "
+             "equal the token concatenation byte for byte, parse to the expected value and be a fixed point of Minify. Arbitrary zero-terminated "
+             "bytes (Hypothesis + coverage-guided fuzzing) run in a buffer whose terminator is the last accessible byte. Exploration.",
+        note="Trusted: page protection/canaries, the dialect recogniser (for the strict-input oracle inside the fuzz target).",
+        ref="3 C13"),
 }
 
 PENDING = {
